@@ -1,125 +1,55 @@
-// k-peg — bounded stand-ins for what Verus cannot reach: the *parse paths* of sequences and repetitions
-// (core::array::from_fn with FnMut closures), the _ALL / slice stack nodes, and the tracker-carrying code.
-// Concrete small grammars built from the real combinators; symbolic input of at most L characters over a
-// stated alphabet; unwinding assertions on.  Oracle: refpeg (the PEG denotation in executable form).
-// For each grammar: parse == check == refpeg on (verdict, consumed offset, stack depth).
+// k-peg — Kani bounded stand-ins for what Verus cannot reach: the *parse paths* of sequences and repetitions
+// (core::array::from_fn with FnMut closures), with the tracker present.  Grammars and comparison: peg_common.
+// Symbolic input of at most L characters over a stated alphabet; unwinding assertions on (complete for that L).
 mod k_peg {
-    use super::refpeg::{eval, Cx, Stk, E, INF};
+    use super::pegc::*;
     use super::SymStr;
-    use crate::choices::{Choice2, Choice3};
-    use crate::predefined_node::*;
-    use crate::sequence::{Seq2, Seq3};
-    use crate::tracker::Tracker;
-    use crate::{Input, Position, Span, Stack, StringWrapper, TypedNode};
-
-    #[derive(Clone, Copy, Debug, Eq, Hash, Ord, PartialEq, PartialOrd)]
-    pub enum Rule { EOI, X }
-
-    macro_rules! lit {
-        ($n:ident, $s:literal) => {
-            #[derive(Clone, Debug, Hash, PartialEq, Eq)]
-            pub struct $n;
-            impl StringWrapper for $n { const CONTENT: &'static str = $s; }
-        };
-    }
-    lit!(LA, "a");
-    lit!(LB, "b");
-    lit!(LSP, " ");
-    lit!(LAB, "ab");
-    type A = Str<LA>;
-    type B = Str<LB>;
-    type AB = Str<LAB>;
-    /// the skip node the generator emits when only WHITESPACE = { " " } is defined
-    type WS = AtomicRepeat<Str<LSP>>;
-    type S1<T> = Skipped<T, WS, 1>;
-    type S0<T> = Skipped<T, WS, 0>;
-    static E_WS: E = E::Rep(&E::Str(" "), 0, INF, 0);
-
-    /// parse == check == reference, for grammar G / expression `e`, on sub-input s[..]
-    fn cmp<'i, G: TypedNode<'i, Rule>>(s: &'i str, e: &E, skip: Option<&'static E>) -> Option<usize> {
-        let input = Position::from_start(s);
-        let mut st1 = Stack::new();
-        let mut tr1 = Tracker::<Rule>::new(input);
-        let p = G::try_parse_partial_with(input, &mut st1, &mut tr1);
-        let mut st2 = Stack::new();
-        let mut tr2 = Tracker::<Rule>::new(input);
-        let c = G::try_check_partial_with(input, &mut st2, &mut tr2);
-        let po = p.map(|x| x.0.byte_offset());
-        let co = c.map(|x| x.byte_offset());
-        assert!(po == co);                       // C03: same verdict, same offset
-        let cx = Cx { s, start: 0, end: s.len(), skip };
-        let r = eval(e, &cx, 0, Stk::new());
-        assert!(r.map(|x| x.0) == co);           // C01: the PEG denotation
-        if let Some((_, rs)) = r {
-            assert!(st1.len() == rs.n && st2.len() == rs.n);
-        }
-        if let Some(o) = co { assert!(s.is_char_boundary(o) && o <= s.len()); }   // C09
-        co
-    }
-
     const AL: [&str; 3] = ["a", "b", " "];
 
-    // ---- sequence with implicit skip: a ~ b ~ a ---------------------------------------------------------------
-    static E_SEQ3: E = E::Seq(&[E::Str("a"), E::Str("b"), E::Str("a")], 1);
     #[kani::proof]
     #[kani::unwind(7)]
     fn peg_seq3_skip() {
         let s = SymStr::<5>::any(&AL, 5);
-        let r = cmp::<Seq3<S1<A>, S1<B>, S1<A>>>(s.as_str(), &E_SEQ3, Some(&E_WS));
-        kani::cover!(r == Some(5));
-        kani::cover!(r.is_none());
+        let r = cmp::<GSeq3, XSeq3>(s.as_str());
+        assert!(r.is_ok());
+        kani::cover!(r == Ok(Some(5)));
+        kani::cover!(r == Ok(None));
     }
-    // ---- atomic sequence: no skip ----------------------------------------------------------------------------------
-    static E_SEQ2A: E = E::Seq(&[E::Str("a"), E::Str("b")], 0);
     #[kani::proof]
     #[kani::unwind(6)]
     fn peg_seq2_atomic() {
         let s = SymStr::<4>::any(&AL, 4);
-        let r = cmp::<Seq2<S0<A>, S0<B>>>(s.as_str(), &E_SEQ2A, Some(&E_WS));
-        kani::cover!(r == Some(2));
-        kani::cover!(r.is_none());
+        let r = cmp::<GSeq2A, XSeq2A>(s.as_str());
+        assert!(r.is_ok());
+        kani::cover!(r == Ok(Some(2)));
+        kani::cover!(r == Ok(None));
     }
-    // ---- repetition with bounds and skip: a{1,2} -----------------------------------------------------------------
-    static E_REP12: E = E::Rep(&E::Str("a"), 1, 2, 1);
     #[kani::proof]
     #[kani::unwind(7)]
     fn peg_rep_1_2_skip() {
         let s = SymStr::<5>::any(&AL, 5);
-        let r = cmp::<RepMinMax<A, WS, 1, 1, 2>>(s.as_str(), &E_REP12, Some(&E_WS));
-        kani::cover!(r == Some(3));
-        kani::cover!(r == Some(1));
-        kani::cover!(r.is_none());
+        let r = cmp::<GRep12, XRep12>(s.as_str());
+        assert!(r.is_ok());
+        kani::cover!(r == Ok(Some(3)));
+        kani::cover!(r == Ok(Some(1)));
+        kani::cover!(r == Ok(None));
     }
-    // ---- unbounded repetition of a choice containing a sequence: (a | b ~ a)+ ---------------------------------------
-    static E_REPCH: E = E::Rep(&E::Choice(&[E::Str("a"), E::Seq(&[E::Str("b"), E::Str("a")], 1)]), 1, INF, 1);
     #[kani::proof]
-    #[kani::unwind(7)]
+    #[kani::unwind(5)]
     fn peg_rep_choice_seq() {
-        let s = SymStr::<4>::any(&AL, 4);
-        let r = cmp::<RepMin<Choice2<A, Seq2<S1<B>, S1<A>>>, WS, 1, 1>>(s.as_str(), &E_REPCH, Some(&E_WS));
-        kani::cover!(r == Some(4));
-        kani::cover!(r.is_none());
+        let s = SymStr::<3>::any(&AL, 3);
+        let r = cmp::<GRepCh, XRepCh>(s.as_str());
+        assert!(r.is_ok());
+        kani::cover!(r == Ok(Some(3)));
+        kani::cover!(r == Ok(None));
     }
-    // ---- stack: PUSH(a|b) ~ (POP | PEEK ~ DROP): stack ops inside choice -----------------------------------------------
-    static E_PUSHPOP: E = E::Seq(&[E::Push(&E::Choice(&[E::Str("a"), E::Str("b")])), E::Choice(&[E::Seq(&[E::Pop, E::Str("b")], 0), E::Seq(&[E::Peek, E::Drop], 0)])], 0);
     #[kani::proof]
-    #[kani::unwind(6)]
+    #[kani::unwind(5)]
     fn peg_push_pop_choice() {
-        let s = SymStr::<4>::any(&["a", "b"], 4);
-        let r = cmp::<Seq2<S0<Push<Choice2<A, B>>>, S0<Choice2<Seq2<S0<POP<'_>>, S0<B>>, Seq2<S0<PEEK<'_>>, S0<DROP>>>>>>(s.as_str(), &E_PUSHPOP, None);
-        kani::cover!(r == Some(3));
-        kani::cover!(r == Some(2));
-        kani::cover!(r.is_none());
-    }
-    // ---- predicates around stack ops and repetition of PUSH: PUSH(a)* ~ &(POP) ~ !b ~ PEEK_ALL -----------------------------
-    static E_PRED: E = E::Seq(&[E::Rep(&E::Push(&E::Str("a")), 0, 2, 0), E::Pos(&E::Pop), E::Neg(&E::Str("b")), E::PeekAll], 0);
-    #[kani::proof]
-    #[kani::unwind(7)]
-    fn peg_pred_stack_rep() {
-        let s = SymStr::<5>::any(&["a", "b"], 5);
-        type G<'i> = crate::sequence::Seq4<S0<RepMinMax<Push<A>, WS, 0, 0, 2>>, S0<Positive<POP<'i>>>, S0<Negative<B>>, S0<PEEK_ALL<'i>>>;
-        let r = cmp::<G<'_>>(s.as_str(), &E_PRED, None);
-        kani::cover!(r == Some(4));
-        kani::cover!(r.is_none());
+        let s = SymStr::<3>::any(&["a", "b"], 3);
+        let r = cmp::<GPushPop<'_>, XPushPop>(s.as_str());
+        assert!(r.is_ok());
+        kani::cover!(r == Ok(Some(3)));
+        kani::cover!(r == Ok(None));
     }
 }
